@@ -1,4 +1,6 @@
-"""C03 R03.18: the size expression of a variable length array type is evaluated exactly once, when its declarator is reached
+"""C03 R03.18 (see r_vla_once for the clause as decided now; a typedef binder may also FREEZE the lengths: bind a private copy of the type whose
+length trees are reads of hidden variables assigned once by code emitted where the typedef stands - re-linking such a tree is harmless).
+The size expression of a variable length array type is evaluated exactly once, when its declarator is reached
 (C11 6.7.6.2p5, 6.8p3; 6.7.8p3 for a typedef name). Private helper of sa/rules/c03.py.
 
 The length expression of a VLA type is a tree stored in the Type (`vla_len`); Types are shared by every declaration that names the type through a
@@ -9,8 +11,8 @@ typedef name (or typeof). Two structural facts are decided over all paths:
  (B) a function that binds a typedef name to the type of a declarator (stores it into `type_def`) hands that type to a size-computing function on
      the same path, so that the expression is evaluated when the typedef is reached."""
 from .build import AnalysisBroken
-from .interp import Interp, View, Obj
-from .lib_c03proto import _args, _callees
+from .interp import Interp, View, Obj, Cell, _Ref, VarPlace, Sym
+from .lib_c03proto import _callees
 
 RULE = 'R03.18'
 U = 'parse.c'
@@ -20,6 +22,46 @@ DECLARATOR = 'declarator'
 
 def _label(v):
     return v.cell.label if isinstance(v, View) else None
+
+
+def _args(pu, f):
+    """like lib_c03proto._args, but an out-parameter (`T **p`) may be null or point to a place that holds null or a T; the place is kept in ctx.c03_out[p]"""
+    def mk(ctx):
+        out = []
+        ctx.c03_out = {}
+        for p in pu.params(f):
+            t = (p.type or '').replace(' ', '')
+            if t.endswith('**'):
+                env = {p.name: View(Cell([0, Obj(t[:-2].replace('struct', ''), lazy=True, label='*' + p.name)], '*' + p.name))}
+                ctx.c03_out[p.name] = env
+                out.append(View(Cell([0, _Ref(VarPlace(env, p.name))], p.name)))
+            elif t.endswith('*'):
+                out.append(Obj(t[:-1].replace('struct', '').replace('const', ''), lazy=True, label=p.name))
+            else:
+                out.append(Sym(p.name, p.type))
+        return out
+    return mk
+
+
+def _vals(v):
+    """the values a view can still have on this path (None: not enumerable)"""
+    if isinstance(v, int):
+        return [v]
+    if isinstance(v, View):
+        try:
+            return [v.proj(c) for c in v.cell.cands]
+        except Exception:
+            return None
+    return None
+
+
+def _is_null(v):
+    vs = _vals(v)
+    return bool(vs) and all(isinstance(x, int) and x == 0 for x in vs)
+
+
+def _out_params(pu, f):
+    return [(i, p.name) for i, p in enumerate(pu.params(f)) if (p.type or '').replace(' ', '').endswith('**') and 'Node' in (p.type or '')]
 
 
 def _reads(fd, field):
@@ -43,30 +85,131 @@ def _explore(P, pu, f, stores=False):
     return it, it.explore(f, _args(pu, f), max_paths=4000)
 
 
+def _freezer(P, pu, rep, g, var_readers):
+    """does g(type, .., out) return a type none of whose VLA lengths is the tree the declarator stored: the type itself only when it is not variably modified, else a fresh Type whose base went
+    through g and whose `vla_len` (if it can be a VLA) is a read of a fresh variable that an assignment handed out through the out-parameter sets to the old tree. -> (True|False|None, why)"""
+    fd = pu.functions[g]
+    outs = _out_params(pu, g)
+    tps = [q.name for q in pu.params(g) if (q.type or '').replace(' ', '') in ('Type*', 'structType*')]
+    if len(outs) != 1 or len(tps) != 1:
+        return None, '%s() has not exactly one Type and one Node ** parameter' % g
+    oname, tname = outs[0][1], tps[0]
+    E = pu.enums
+    try:
+        it, res = _explore(P, pu, g, stores=True)
+    except Exception as e:
+        return None, 'cannot explore %s: %s: %s' % (g, type(e).__name__, e)
+    nfrozen = 0
+    for ctx, out in res:
+        if out[0] != 'ret':
+            continue
+        it.ctx = ctx
+        R = out[1]
+        R = it.settle(R) if isinstance(R, View) and not isinstance(it.settle(R), View) else R
+        calls = [e for e in ctx.events if e[0] == 'call']
+        byres = {_label(e[4]): e for e in calls if _label(e[4])}
+        if isinstance(R, View) or (isinstance(R, Obj) and R.label == tname):
+            lab = _label(R) if isinstance(R, View) else R.label
+            if lab != tname:
+                return None, '%s() returns a type that is neither its argument nor a fresh one (%s)' % (g, lab)
+            if not any(len(e[2]) == 1 and (getattr(e[2][0], 'label', None) == tname or _label(e[2][0]) == tname) and _is_null(e[4]) for e in calls):
+                if any(e[0] == 'fstore' and e[2] in (LEN_FIELD, 'base') for e in ctx.events):
+                    return None, '%s() changes the lengths of the declarator\'s type in place; whether that type is shared with another declaration is not followed' % g
+                return False, '%s() returns the type unchanged on a path that has not found it free of variable length arrays' % g
+            continue
+        if not isinstance(R, Obj):
+            return None, '%s() returns %r' % (g, R)
+        b = R.fields.get('base')
+        be = byres.get(_label(b))
+        if not _is_null(b) and not (be is not None and be[1] == g and any(_label(a) == oname for a in be[2])):
+            return False, '%s() keeps the element type of the copy as it was: the lengths of the inner dimensions are still the declarator\'s expressions' % g
+        kv = _vals(R.fields.get('kind'))
+        if kv is not None and all(isinstance(x, int) for x in kv) and E.get('TY_VLA') not in kv:
+            continue
+        ve = byres.get(_label(R.fields.get(LEN_FIELD)))
+        if ve is None or ve[1] not in var_readers or not ve[2]:
+            return False, '%s() leaves the declarator\'s length expression in `%s` of the type it returns' % (g, LEN_FIELD)
+        var = _label(ve[2][0])
+        if var not in byres or byres[var][1] not in pu.functions:
+            return False, '%s(): the variable that stands for the length is not a fresh one' % g
+        asg = [e for e in calls if len(e[2]) >= 3 and e[2][0] == E.get('ND_ASSIGN') and byres.get(_label(e[2][1])) is not None and byres[_label(e[2][1])][1] in var_readers
+               and _label(byres[_label(e[2][1])][2][0]) == var and (_label(e[2][2]) or '').endswith('.' + LEN_FIELD)]
+        if not asg:
+            return False, '%s(): no assignment of the declarator\'s length expression to the variable that replaces it is built' % g
+        final = ctx.c03_out[oname][oname]
+        fl = _label(final)
+        handed = any(fl == _label(a[4]) or (fl in byres and any(_label(x) == _label(a[4]) for x in byres[fl][2])) for a in asg)
+        if not handed:
+            return False, '%s() does not hand the assignment that sets the length variable out through `*%s`: the variable is never set' % (g, oname)
+        nfrozen += 1
+    if not nfrozen:
+        return None, 'no path of %s() that freezes a length was seen' % g
+    return True, ''
+
+
+def _code_emitted(pu, f, idx, cgr):
+    """every caller of the binder f either passes no place for code and runs at file scope only, or links what comes back into a tree. -> [(caller, True|False|None, why, line)]"""
+    openers = set(h for h in pu.functions if 'enter_scope' in cgr[h])
+
+    def reach(h, seen):
+        for k in cgr.get(h, ()):
+            if k in pu.functions and k not in seen:
+                seen.add(k); reach(k, seen)
+        return seen
+    in_block = set()
+    for h in openers:
+        in_block |= reach(h, {h})
+    out = []
+    for h in sorted(pu.functions):
+        for c in pu.functions[h].calls(f):
+            a = c.args()
+            if idx >= len(a):
+                out.append((h, None, 'call without the code argument', c.line)); continue
+            x = a[idx].strip_all()
+            if x.int_value() == 0:
+                out.append((h, h not in in_block, '%s() passes no place for the code of a typedef although it can run inside a block' % h, c.line)); continue
+            if x.kind == 'UnaryOperator' and x.opcode == '&' and x.inner and x.inner[0].strip().kind == 'DeclRefExpr':
+                vid = x.inner[0].strip().ref_id
+                linked = False
+                for k in pu.functions[h].find('CallExpr'):
+                    if k is c or not any(r.ref_id == vid for ar in k.args() for r in ar.find('DeclRefExpr')):
+                        continue
+                    for anc in k.ancestors():
+                        if anc.kind == 'ReturnStmt' or (anc.kind == 'BinaryOperator' and anc.opcode == '=' and anc.inner[0].strip().kind == 'MemberExpr'):
+                            linked = True
+                out.append((h, linked, '%s() does not link the code a typedef hands back into the statements of the block: the lengths are never evaluated' % h, c.line)); continue
+            out.append((h, None, 'the code argument of %s() in %s() is neither null nor the address of a local' % (f, h), c.line))
+    return out
+
+
 def r_vla_once(P, rep):
-    rep.rule(RULE, 'the size expression of a variable length array type is evaluated exactly once, when the declarator that contains it is reached: the length tree stored in a Type is linked into the generated '
-                   'code only while the size of that type has not been computed yet (a typedef name / typeof shares the Type between declarations: `typedef int A[f()]; A x; A y;` calls f once), and a typedef '
-                   'declaration computes the size of the type it names where it stands (`typedef int A[n]; n = 5; A x;` has the old n elements; C11 6.7.8p3)', floor=2)
+    rep.rule(RULE, 'the length expression a declarator wrote (the tree the declarator stores in `vla_len` of the Type) is evaluated exactly once, where the declarator stands: a function links that tree into the '
+                   'generated code a second time (for another declaration that shares the Type through a typedef name: `typedef int A[f()]; A x; A y;` calls f once) only if the size of that type has not been '
+                   'computed yet, or if the tree is by then a read of a variable (no side effect, no re-evaluation of the program\'s expression); a typedef declaration either computes the size of the type it names '
+                   'where it stands or binds the name to a copy whose lengths are all such variables, set once by code emitted where the typedef stands (`typedef int A[n]; n = 5; A x;` has the old n elements; '
+                   'C11 6.7.8p3)', floor=2)
     pu = P.unit(U)
     if DECLARATOR not in pu.functions:
         raise AnalysisBroken('parse.c: %s vanished' % DECLARATOR)
     cgr = {f: _callees(fd) for f, fd in pu.functions.items()}
-    # (A)
-    linkers = []
+    var_readers = set(f for f, fd in pu.functions.items() if (fd.type or '').split('(')[0].replace(' ', '') == 'Node*'
+                      and any(r.ref_name == 'ND_VAR' for r in fd.find('DeclRefExpr')) and not any(c.callee() in pu.functions for c in fd.find('CallExpr') if c.callee() != 'new_node'))
+    # (A) who links the stored tree, and under which guard
+    linkers, relinks, first = [], {}, {}
     for f in sorted(pu.functions):
         fd = pu.functions[f]
         if not _reads(fd, LEN_FIELD):
             continue
         w = '%s:%d' % (U, fd.line)
         try:
-            it, res = _explore(P, pu, f)
+            it, res = _explore(P, pu, f, stores=True)
         except Exception as e:
             rep.undecided(RULE, '%s:%s:%s-linked-once' % (U, f, LEN_FIELD), 'cannot explore: %s: %s' % (type(e).__name__, e), where=w)
             continue
         links = 0
-        ok = True
-        line = fd.line
+        bad = None
         for ctx, out in res:
+            replaced = set(e[1].label if isinstance(e[1], Obj) else _label(e[1]) for e in ctx.events if e[0] == 'fstore' and e[2] == LEN_FIELD)
             for e in ctx.events:
                 if e[0] != 'call':
                     continue
@@ -77,16 +220,15 @@ def r_vla_once(P, rep):
                     links += 1
                     owner = lab[:-len(LEN_FIELD) - 1]
                     guard = '%s.%s in {NULL}' % (owner, SIZE_FIELD)
-                    if guard not in ctx.trail:
-                        ok = False
-                        line = e[3]
+                    if guard not in ctx.trail and not replaced:
+                        bad = e[3]
         if not links:
             continue        # reads the field without linking it (a test, a copy)
         linkers.append(f)
-        rep.ob(RULE, '%s:%s:%s-linked-once' % (U, f, LEN_FIELD), ok,
-               '%s() links the length expression stored in a VLA type (`%s`) into the generated code on a path that has not established that the size of this type is still to be computed (`%s` null): '
-               'the Type is shared by every declaration that uses a typedef name of it, so the expression is evaluated again for each object (`typedef int A[f()]; A x; A y;` calls f twice, gcc once) '
-               'and an object gets the size of the moment of its own declaration instead of the typedef\'s' % (f, LEN_FIELD, SIZE_FIELD), where='%s:%d' % (U, line))
+        if bad is None:
+            first[f] = fd.line
+        else:
+            relinks[f] = bad
     if not linkers:
         rep.undecided(RULE, '%s:%s-linker' % (U, LEN_FIELD), 'no function of parse.c that links the stored length expression of a VLA type into generated code was recognised', where='%s:1' % U)
         return
@@ -99,60 +241,110 @@ def r_vla_once(P, rep):
         return any(h in pu.functions and h not in seen and reaches_linker(h, seen) for h in cgr.get(g, ()))
     # (B)
     binders = 0
+    all_frozen = True       # every typedef binder binds only types whose lengths are variable reads
     for f in sorted(pu.functions):
         fd = pu.functions[f]
         if DECLARATOR not in cgr[f] or not _reads(fd, TYPEDEF_FIELD):
             continue
         w = '%s:%d' % (U, fd.line)
+        fouts = dict((n, i) for i, n in _out_params(pu, f))
         try:
             it, res = _explore(P, pu, f, stores=True)
         except Exception as e:
             rep.undecided(RULE, '%s:%s:typedef-size-computed' % (U, f), 'cannot explore: %s: %s' % (type(e).__name__, e), where=w)
+            all_frozen = False
             continue
         bound = computing = 0
         ok = True
+        freezers, nocode = set(), set()
         for ctx, out in res:
             if out[0] != 'ret':
                 continue
             decls = set()
             computed = set()
             exempt = set()      # types the path has found not to be variably modified (a predicate on the type answered false)
+            via = {}            # result of a parse.c function applied to a declarator's type and to this function's place for code
             stored = []
             for e in ctx.events:
                 if e[0] == 'call' and e[1] == DECLARATOR:
                     decls.add(_label(e[4]))
-                elif e[0] == 'call' and e[1] in pu.functions and reaches_linker(e[1]):
+                elif e[0] == 'call' and e[1] in pu.functions and reaches_linker(e[1]) and not any(_label(a) in fouts for a in e[2]):
                     computed.update(_label(a) for a in e[2])
+                elif e[0] == 'call' and e[1] in pu.functions and any(_label(a) in decls for a in e[2]) and any(_label(a) in fouts for a in e[2]):
+                    via[_label(e[4])] = (e[1], [n for n in fouts if any(_label(a) == n for a in e[2])][0])
                 elif e[0] == 'call' and isinstance(e[4], View) and len(e[2]) == 1:
-                    try:
-                        vals = [e[4].proj(c) for c in e[4].cell.cands]
-                    except Exception:
-                        vals = [None]
-                    if vals and all(isinstance(v, int) and v == 0 for v in vals):
+                    if _is_null(e[4]):
                         exempt.add(_label(e[2][0]))
                 elif e[0] == 'fstore' and e[2] == TYPEDEF_FIELD:
                     stored.append(_label(e[4]))
             file_scope = 'scope.next in {NULL}' in ctx.trail or 'scope.next in {0}' in ctx.trail
             for lab in stored:
+                if lab in via:
+                    bound += 1
+                    freezers.add(via[lab])
+                    continue
                 if lab is None or lab not in decls:
                     continue
                 bound += 1
                 if lab in computed:
                     computing += 1
                 elif lab not in exempt and not file_scope:
-                    ok = False
+                    none = [n for n in fouts if '%s in {0}' % n in ctx.trail or '%s in {NULL}' % n in ctx.trail]
+                    if none:
+                        nocode.update(none)     # the caller gave no place for code: decided at the callers
+                    else:
+                        ok = False
         if not bound:
             continue
         binders += 1
-        ok = ok and computing > 0
-        rt = (fd.type or '').split('(')[0].strip().replace(' ', '')
         key = '%s:%s:typedef-size-computed' % (U, f)
-        if ok or rt not in ('Node*', 'Type*'):
+        if freezers:
+            for g, oparam in sorted(freezers):
+                v, why = _freezer(P, pu, rep, g, var_readers)
+                k2 = '%s:%s:typedef-lengths-frozen' % (U, g)
+                if v is None:
+                    rep.undecided(RULE, k2, why, where='%s:%d' % (U, pu.functions[g].line))
+                else:
+                    rep.ob(RULE, k2, v, why + ': an object declared with the typedef name evaluates the expression again, with the values of that moment (C11 6.7.8p3)', where='%s:%d' % (U, pu.functions[g].line))
+                if v is not True:
+                    all_frozen = False
+                for h, v2, why2, line in _code_emitted(pu, f, fouts[oparam], cgr):
+                    k3 = '%s:%s:typedef-code-emitted' % (U, h)
+                    if v2 is None:
+                        rep.undecided(RULE, k3, why2, where='%s:%d' % (U, line))
+                    else:
+                        rep.ob(RULE, k3, v2, why2, where='%s:%d' % (U, line))
+                    if v2 is not True:
+                        all_frozen = False
+            if nocode - set(o for g, o in freezers) or computing:
+                rep.undecided(RULE, key, 'the typedef binder mixes ways of fixing the size (computes / freezes / unconditional null place)', where=w)
+                all_frozen = False
+                continue
+            rep.ob(RULE, key, ok, '%s() binds a typedef name to the unchanged type of a declarator on a path that has a place for code' % f, where=w)
+            if not ok:
+                all_frozen = False
+            continue
+        all_frozen = False
+        ok = ok and computing > 0 and not nocode
+        rt = (fd.type or '').split('(')[0].strip().replace(' ', '')
+        if ok or (rt not in ('Node*', 'Type*') and not fouts):
             rep.ob(RULE, key, ok,
                    '%s() binds a typedef name to the type of a declarator without handing the type to a function that generates the computation of its size (%s), and has no way to hand code back to the block: '
                    'the size expression of a variably modified typedef is not evaluated where the typedef stands but at every later declaration that uses the name '
                    '(`int n = 2; typedef int A[n]; n = 5; A x;` makes x 5 elements, C11 6.7.8p3 says 2)' % (f, ', '.join(linkers)), where=w)
         else:
-            rep.undecided(RULE, key, 'the typedef binder returns a %s; whether its caller generates the size computation is not followed' % rt, where=w)
+            rep.undecided(RULE, key, 'the typedef binder returns a %s or has a place for code; whether its caller generates the size computation is not followed' % rt, where=w)
     if not binders:
         rep.undecided(RULE, '%s:typedef-binder' % U, 'no function that binds a typedef name to a declarator\'s type (%s() result stored into `%s`) was recognised' % (DECLARATOR, TYPEDEF_FIELD), where='%s:1' % U)
+        all_frozen = False
+    # (A) verdicts: linking the tree of a type whose size may already have been computed is harmless only if every shared type has frozen lengths
+    for f in linkers:
+        k = '%s:%s:%s-linked-once' % (U, f, LEN_FIELD)
+        if f in first:
+            rep.ob(RULE, k, True, '', where='%s:%d' % (U, first[f]))
+            continue
+        rep.ob(RULE, k, all_frozen and binders > 0,
+               '%s() links the length expression stored in a VLA type (`%s`) into the generated code on a path that has not established that the size of this type is still to be computed (`%s` null): '
+               'the Type is shared by every declaration that uses a typedef name of it, so the expression is evaluated again for each object (`typedef int A[f()]; A x; A y;` calls f twice, gcc once) '
+               'and an object gets the size of the moment of its own declaration instead of the typedef\'s' % (f, LEN_FIELD, SIZE_FIELD), where='%s:%d' % (U, relinks[f]),
+               facts={'typedef names are bound to types whose lengths are variable reads': all_frozen})
